@@ -66,6 +66,26 @@ PROPS["C17"] = {
     "assumptions": ["go1.26.8 synctest"],
 }
 
+PROPS["C04"] = {
+    "test": "TestC04", "level": "exploration", "registered": True, "engine": "sim",
+    "shards_quick": 8, "shards_thorough": 16, "timeout": 900,
+    "technique": "differential runtime check: real router vs an independent reference routing function over a host x path probe matrix, three construction orders incl. restart",
+    "level_text": "Random conflict-free tables of 1-6 services (hosts from a collision-forcing alphabet incl. wildcards and the no-host default, prefixes with look-alikes, spelled as an operator might) are built three ways - random deploy order, another order with redeploys that move bindings, and restored from the state file - and each answers a 22-host x 26-path probe matrix sent as raw HTTP through the real server chain; every cell must equal a 20-line reference written from the statement. The thorough tier also enumerates every table of one or two single-binding services.",
+    "level_note": "Trusted: the reference function, the fake targets' marker header. Hosts are lower-case; paths use unreserved characters only (decoded == raw).",
+    "rule": "a class is the multiset of (hosts, prefixes) of the table; non-trivial = table with >= 2 services (or a table of the exhaustive small-scope part)",
+    "assumptions": ["go1.26.8 net/http request parsing of the Host header"],
+}
+
+PROPS["C05"] = {
+    "test": "TestC05", "level": "exploration", "registered": True, "engine": "sim",
+    "shards_quick": 8, "shards_thorough": 16, "timeout": 900,
+    "technique": "runtime monitor: sequential ownership-map oracle after every command, and porcupine linearizability check of recorded concurrent deploy/remove/lookup histories",
+    "level_text": "Sequential histories of deploy/redeploy/remove over overlapping host and prefix lists (default host and wildcards included) are judged step by step against a reference ownership map (command result, list output, routing of a probe panel). Concurrent histories (2-6 clients, <= 36 operations, virtual jitter at the deploy hooks so that install points interleave) are recorded at the client boundary with a logical clock and checked with porcupine against the same sequential model; the final table is checked for doubly-owned pairs.",
+    "level_note": "Trusted: porcupine v1.3.0, the 40-line ownership model, the reference routing function of C04. A porcupine timeout (60s) is inconclusive.",
+    "rule": "classes: sequential (number of rejected conflicting deploys, number of redeploys that moved a service, length) and concurrent (clients, overlapping deploy pairs, length); non-trivial = at least one conflict or move (sequential) or at least one pair of deploys that overlapped in time (concurrent)",
+    "assumptions": ["targets always healthy so that a deploy reaches its install point at once"],
+}
+
 ENGINES = [
     {"name": "sim", "path": "/verif/harness (world_test.go)", "kind_free_text": "real internal/server code in a testing/synctest bubble (virtual time) on an in-memory network with scripted fake targets and hook-placed delays; monitors judge recorded events", "serves_properties": []},
 ]
